@@ -29,6 +29,10 @@ BASES = [
     [("states", "M", ["V=-80.0"]), ("states", "G", ["m=0.1", "h=0.9"]), ("parameters", "M", ["g=0.3", "e=-60.0"]),
      ("expr", "G", ["minf = 1/(1 + exp(-(V + 40)/8))", "dm_dt = (minf - m)*2", "dh_dt = 0.25*(1 - h) - h*exp(V/20)"]),
      ("expr", "M", ["ileak = g*(V - e)", "dV_dt = -(ileak + m*m*m*h*(V - 50))"])],
+    # mixed style: header-less (default component) lines next to a headed block
+    [("parameters", None, ["sigma=12.0"]), ("parameters", "slow", ["rho=21.0", "beta=2.4"]), ("states", None, ["x=1.0"]),
+     ("states", "slow", ["y=2.0", "z=3.05"]), ("expr", None, ["s = sigma*y", "dx_dt = s - sigma*x"]),
+     ("expr", "slow", ["a = rho - z", "dy_dt = x*a - y", "dz_dt = x*y - beta*z"])],
 ]
 
 
@@ -83,20 +87,28 @@ def tasks(tier, seed):
         base = render(blocks)
         seen = {base}
         for kind, nb in variants(blocks, tier, seed + bi):
-            # headerless expression blocks after a headed one would change component membership: skip those texts
-            hdr = [c for k, c, _ in nb if k == "expr"]
-            if None in hdr and any(h for h in hdr) and hdr.index(None) > 0:
-                continue
             t = render(nb)
             if t in seen:
                 continue
             seen.add(t)
-            out.append({"family": "PERM", "id": text_id(t), "text": t, "opts": {"base": base, "kind": kind}})
+            # structural class of a known grammar limitation: a header-less expression block placed directly after a
+            # headed expression block is absorbed into the headed block ((assignment)+ keeps consuming lines)
+            ex = [(i, c) for i, (k, c, _) in enumerate(nb) if k == "expr"]
+            absorbed = any(nb[i][1] is None and i > 0 and nb[i - 1][0] == "expr" and nb[i - 1][1] is not None for i, _ in ex)
+            out.append({"family": "PERM", "id": text_id(t), "text": t,
+                        "opts": {"base": base, "kind": kind, "headerless_after_headed": absorbed}})
     return out + witness_tasks(PROP)
 
 
+class ClassKeyProg(Prog):
+    def key(self, label):
+        if self.task["opts"].get("headerless_after_headed"):
+            return f"{self.prop}|PERM|header-less expression block directly after a headed expression block"
+        return super().key(label)
+
+
 def work(task):
-    prog = Prog(PROP, task, timeout_ms=10000)
+    prog = ClassKeyProg(PROP, task, timeout_ms=10000)
     base = task["opts"]["base"]
     m0, ode0 = checks.load_all(prog, base)
     if ode0 is None:
